@@ -215,7 +215,7 @@ func C19SweepJobs(seed uint64, quick bool) []SweepJob {
 // ---------------------------------------------------------------------------
 // C11
 
-var c11Types = []string{"Wide", "Wide", "Inner", "Sym", "SymBox", "Maps", "MapKS", "JDoc", "V2", "[]byte", "string", "MyBytes", "[][]byte", "Node", "[]string"}
+var c11Types = []string{"Wide", "Wide", "Inner", "Sym", "SymBox", "Maps", "MapKS", "JDoc", "V2", "[]byte", "string", "MyBytes", "[][]byte", "Node", "[]string", "Nest", "Tags", "JArr", "JNest", "[]any", "MapKV"}
 var c11StructTypes = []string{"Wide", "Inner", "Sym", "SymBox", "Maps", "JDoc", "V2", "Node", "Small"}
 
 func GenC11(seed uint64, idx int) *Scenario {
@@ -233,7 +233,7 @@ func GenC11(seed uint64, idx int) *Scenario {
 		var ops []Op
 		for len(ops) < nops {
 			tn := c11Types[r.Intn(len(c11Types))]
-			if !world.TopOK(typeInfo(tn), cfg) {
+			if !world.ShapeOK(typeInfo(tn), cfg) {
 				continue
 			}
 			vocab := 0
@@ -298,7 +298,7 @@ func GenC11(seed uint64, idx int) *Scenario {
 // ---------------------------------------------------------------------------
 // C10
 
-var c10Types = []string{"MTarget", "MTarget", "MTarget", "Wide", "Wide", "Maps", "MapKS", "MapKV", "Node", "Sym", "V2", "JDoc", "[]int", "[]string", "Tree"}
+var c10Types = []string{"MTarget", "MTarget", "MTarget", "Wide", "Wide", "Maps", "MapKS", "MapKV", "Node", "Sym", "V2", "JDoc", "[]int", "[]string", "Tree", "Nest", "NestD", "[][]int", "map[string][]int", "IDs", "Tags", "[]null.Int", "JArr", "JNest", "[]any"}
 
 func GenC10(seed uint64, idx int) *Scenario {
 	r := engine.PRNG{S: engine.Mix(seed, 0xC10, uint64(idx))}
@@ -309,7 +309,7 @@ func GenC10(seed uint64, idx int) *Scenario {
 	sc := &Scenario{Prop: "C10", Seed: seed, Index: idx, Insts: []world.InstCfg{cfg}, PoolSeam: true, PoolBias: 70, SchedSeed: r.Next()}
 	sc.Vocabs = [][]string{makeVocab(&r)}
 	mainType := c10Types[r.Intn(len(c10Types))]
-	for !world.TopOK(typeInfo(mainType), cfg) {
+	for !world.ShapeOK(typeInfo(mainType), cfg) {
 		mainType = c10Types[r.Intn(len(c10Types))]
 	}
 	for t := 0; t < nt; t++ {
@@ -321,7 +321,7 @@ func GenC10(seed uint64, idx int) *Scenario {
 			tn := mainType
 			if r.Intn(5) == 0 {
 				tn = c10Types[r.Intn(len(c10Types))]
-				if !world.TopOK(typeInfo(tn), cfg) {
+				if !world.ShapeOK(typeInfo(tn), cfg) {
 					continue
 				}
 			}
